@@ -43,6 +43,12 @@ def translate():
          and "ess_est=effective_sample_size(weights)" in rw, fn, "metric from max-shifted weights", "reweight.py")
     mu = _ns(get_function(REPO / "tempest" / "steps" / "mutate.py", "Mutator.run"))
     need("inf_logl_mask=np.isinf(logl)" in mu, fn, "warm-up test", "mutate.py")
+    # the returned evidence is recomputed at beta = 1 after the loop (it shifts by c, not by beta_last*c)
+    rs = get_function(REPO / "tempest" / "core.py", "SamplerCore.run_sampling")
+    tail = [_ns(x) for x in strip_doc(rs.body)]
+    k = next((i for i, x in enumerate(tail) if x.startswith("whileself._not_termination()")), None)
+    need(k is not None and tail[k + 1:k + 3] == ["_,logz=self.state.compute_logw_and_logz(1.0)", "self.state.set_current('logz',logz)"],
+         rs, "final evidence recomputed at beta=1 after the loop", "core.py:run_sampling")
     text = f"""(* GENERATED from mcmc.py, steps/reweight.py, steps/mutate.py by tools/props/c10.py *)
 From Coq Require Import Reals.
 Local Open Scope R_scope.
@@ -51,6 +57,7 @@ Definition metric_weights_are_exp_of_logw_minus_max : bool := true.
 Definition metric_logw_from_compute_logw_and_logz : bool := true.
 Definition warmup_test_is_isinf_of_logl : bool := true.
 Definition acceptance_factor_does_not_read_logl : bool := true.
+Definition final_evidence_recomputed_at_beta_one : bool := true.
 """
     write_if_changed(COQ / "Gen" / "Shift.v", text)
 
@@ -77,8 +84,62 @@ def run_one(cfg, seed, c, hole):
                 calls=[int(v) for v in st.get_history("calls")])
 
 
+def band_probe(run, tier, rng):
+    """Runs engineered to stop at beta_last = 1 - 2^-14 (inside the termination tolerance, not equal to 1): the ESS target is
+    put between ESS(1) and ESS(1 - 2^-14) of the warm-up pool, so the upper-limit search ends one halving short of 1.
+    There the final evidence must still shift by c, while the last recorded one shifts by beta_last*c."""
+    from tempest import Sampler
+    for rep in range(2 if tier == "quick" else 8):
+        seed = rng.randrange(10 ** 6)
+        N = rng.choice([16, 48])
+        sig = rng.choice([5.0, 8.0])
+
+        def go(c, ratio):
+            s = Sampler(pt, lambda x: -0.5 * float(np.sum(x ** 2)) / sig ** 2 + c, n_dim=2, n_particles=N, ess_ratio=ratio,
+                        random_state=seed, clustering=False)
+            s.run(n_total=N // 2, progress=False)
+            st = s.state
+            return dict(beta=[float(b) for b in st.get_history("beta")], logz=[float(z) for z in st.get_history("logz")],
+                        logl=np.concatenate(st._history["logl"]), ev=float(s.evidence()[0]))
+
+        def ess_of(l, b):
+            w = np.exp(b * l - np.max(b * l))
+            return float(w.sum() ** 2 / np.sum(w ** 2))
+        try:
+            pilot = go(0.0, 2.0)
+            l2 = pilot["logl"][:2 * N]
+            e1, e2 = ess_of(l2, 1.0), ess_of(l2, 1.0 - 2.0 ** -14)
+            if not (N < e1 < e2 <= 2 * N):
+                run.count("band probe: bracket unusable")
+                continue
+            ratio = 0.5 * (e1 + e2) / N
+            base = go(0.0, ratio)
+            inband = 1.0 - 1e-4 < base["beta"][-1] < 1.0
+            run.case(key=("band", rep), nontrivial=inband)
+            run.count("band probe: run stopped with beta_last in (1-1e-4, 1)" if inband else "band probe: run ended at beta=1")
+            for c in (1e3, -37.5):
+                r = go(c, ratio)
+                what = dict(probe="termination-band", n_particles=N, sigma=sig, ess_ratio=ratio, random_state=seed, shift=c,
+                            betas=base["beta"])
+                if r["beta"] != base["beta"]:
+                    if max(abs(a - b) for a, b in zip(r["beta"], base["beta"])) > 2e-4 or len(r["beta"]) != len(base["beta"]):
+                        run.fail("schedule-changed-by-shift", f"schedule {base['beta']} -> {r['beta']}", **what)
+                    continue
+                for k2, b in enumerate(base["beta"]):
+                    if abs(r["logz"][k2] - base["logz"][k2] - b * c) > 1e-9 + 1e-11 * abs(c):
+                        run.fail("evidence-shift-wrong", f"iteration {k2 + 1} (beta={b}): shift {r['logz'][k2] - base['logz'][k2]} "
+                                 f"instead of {b * c}", **what)
+                        break
+                if abs(r["ev"] - base["ev"] - c) > 1e-9 + 1e-11 * abs(c):
+                    run.fail("final-evidence-shift-wrong", f"final evidence {base['ev']} -> {r['ev']}: shift "
+                             f"{r['ev'] - base['ev']!r} instead of c={c} (beta_last={base['beta'][-1]!r})", **what)
+        except Exception as e:
+            run.fail("run-raises", f"band probe raised {type(e).__name__}: {e}", random_state=seed)
+
+
 def sweep(run, tier, rng):
-    cfgs = [dict(clustering=False), dict(clustering=True, sample="rwm", resample="syst"), dict(clustering=False, volume_variation=0.5)]
+    cfgs = [dict(clustering=False), dict(clustering=True, sample="rwm", resample="syst"), dict(clustering=False, volume_variation=0.5),
+            dict(clustering=False, volume_variation=0.05)]
     if tier != "quick":
         cfgs += [dict(clustering=True), dict(clustering=False, sample="rwm"), dict(clustering=True, volume_variation=0.5, resample="syst")]
     shifts = [1e-3, -1.0, 37.5, -1e3] if tier == "quick" else [1e-3, -1e-3, 1.0, -1.0, 37.5, -37.5, 1e3, -1e3]
@@ -160,6 +221,7 @@ def main(tier, seed):
     run.prove("Props/C10.v", link_rels=["Link/MIS.v", "Link/Schedule.v", "Link/Shift.v"], allowed_axioms=STDLIB_AXIOMS_REALS)
     try:
         sweep(run, tier, rng)
+        band_probe(run, tier, rng)
     except Exception:
         import traceback
         run.broken.append(("harness-exception", traceback.format_exc()[-1500:]))
